@@ -59,8 +59,16 @@ def is_len_like(e):
 def sites(lib):
     """yield (key, kind, fn, line, detail dict)"""
     for f in lib.fns.values():
-        if not any(s in f.file for s in SCOPE) or "/tests" in f.file:
+        if "/tests" in f.file or "::tests::" in f.defn:
             continue
+        in_scope = any(s in f.file for s in SCOPE)
+        if not in_scope:
+            # crate-wide: a signed 64/128-bit quantity (sums and products of model integers are
+            # the only ones the library has) is never narrowed, wherever it is stored or restored
+            if not any(s["s"] == "assign" and s["rv"]["r"] == "cast" and s["rv"]["kind"] == "IntToInt"
+                       and s["rv"]["from"] in ("i64", "i128") and WIDTH.get(s["rv"]["to"], 64) < WIDTH[s["rv"]["from"]]
+                       for b in f.blocks for s in b["stmts"]):
+                continue
         R = resolver(f)
         root = f.parent or f.defn
         for b in f.blocks:
@@ -70,6 +78,9 @@ def sites(lib):
                 if s["s"] != "assign" or s.get("exp"):
                     continue
                 rv = s["rv"]
+                if not in_scope and not (rv["r"] == "cast" and rv.get("kind") == "IntToInt" and
+                                         rv["from"] in ("i64", "i128") and WIDTH.get(rv["to"], 64) < WIDTH[rv["from"]]):
+                    continue
                 if rv["r"] == "binop":
                     op = rv["op"].replace("WithOverflow", "")
                     ty = rv["ty"]
